@@ -44,7 +44,7 @@ fn cfg_for(args: &Args) -> Cfg {
             elementwise: false,
             dense_max: if t { 6144 } else { 1536 },
             impulse_max: if t { 32768 } else { 8192 },
-            struct_max: if t { 1 << 20 } else { 1 << 17 },
+            struct_max: if t { 1 << 19 } else { 1 << 17 },
             struct_count: if t { 400 } else { 120 },
             basis_max: if t { 256 } else { 64 },
             n_impulses: 6,
@@ -59,7 +59,7 @@ fn cfg_for(args: &Args) -> Cfg {
             elementwise: true,
             dense_max: if t { 6144 } else { 1536 },
             impulse_max: if t { 32768 } else { 8192 },
-            struct_max: if t { 1 << 20 } else { 1 << 17 },
+            struct_max: if t { 1 << 19 } else { 1 << 17 },
             struct_count: if t { 400 } else { 120 },
             basis_max: if t { 1024 } else { 128 },
             n_impulses: 16,
@@ -153,11 +153,12 @@ fn make_inputs<T: Elem>(cfg: &Cfg, n: usize, rng: &mut Rng) -> Vec<Input<T>> {
         });
     }
     let classes: Vec<InClass> = if impulse_only {
-        vec![]
+        // a constant vector has the closed-form DFT (n*c, 0, 0, ...): a dense, DC-heavy input at O(n) reference cost
+        vec![InClass::Constant]
     } else if n > (1 << 17) {
         vec![InClass::Uniform]
     } else if n > 8192 {
-        vec![InClass::Uniform, InClass::Positive, InClass::WideRange]
+        vec![InClass::Uniform, InClass::Positive, InClass::WideRange, InClass::Constant]
     } else {
         cfg.classes_small.clone()
     };
@@ -185,6 +186,13 @@ fn check_type<T: Elem>(cfg: &Cfg, st: &mut Stats, n: usize, reff: &RefFft, seed:
         for inp in &inputs {
             let r = match inp.impulse {
                 Some(j) => impulse_dft(n, j, dir, &reff.tw),
+                None if inp.label == "constant" && n > cfg.dense_max => {
+                    // closed form: X[0] = n * c exactly (double-double product), all other bins 0
+                    let c0 = widen(&inp.data[..1])[0];
+                    let mut r = vec![Cdd::ZERO; n];
+                    r[0] = c0.scale(n as f64);
+                    r
+                }
                 None => reff.transform(&widen(&inp.data), dir),
             };
             per.push(r);
